@@ -17,6 +17,7 @@ import (
 	"testing"
 	"time"
 
+	"github.com/smartcontractkit/libocr/commontypes"
 	"github.com/smartcontractkit/libocr/offchainreporting2plus/ocr3types"
 	ocr2plustypes "github.com/smartcontractkit/libocr/offchainreporting2plus/types"
 
@@ -597,11 +598,17 @@ var quietLogger = log.New(io.Discard, "", 0)
 
 // NewNode builds a plugin through plugin.NewReportingPluginFactory — the same
 // path the node operator's code takes (config decode, defaults, services).
-func NewNode(t testing.TB, o NodeOpts) *Node {
+func NewNode(t testing.TB, o NodeOpts) *Node { return NewNodeWith(t, o, nil) }
+
+// NewNodeWith is NewNode with a caller-supplied transmit event provider.
+func NewNodeWith(t testing.TB, o NodeOpts, events types.TransmitEventProvider) *Node {
 	n := &Node{Logs: &fakeLogProvider{}, Events: &fakeEvents{}, Blocks: &fakeBlocks{}, Recov: &fakeRecoverable{},
 		Getter: &fakeGetter{}, Run: &fakeRunnable{}, Enc: &recEncoder{}, States: &fakeStateUpdater{}, N: o.N, F: o.F}
 	n.Digest = ocr2plustypes.ConfigDigest(o.Digest)
-	fac := plugin.NewReportingPluginFactory(n.Logs, n.Events, n.Blocks, n.Recov, fakeBuilder{}, n.Getter, n.Run,
+	if events == nil {
+		events = n.Events
+	}
+	fac := plugin.NewReportingPluginFactory(n.Logs, events, n.Blocks, n.Recov, fakeBuilder{}, n.Getter, n.Run,
 		runner.RunnerConfig{Workers: 4, WorkerQueueLength: 100, CacheExpire: 20 * time.Minute, CacheClean: 30 * time.Second},
 		n.Enc, utg, wg, n.States, quietLogger)
 	oc := o.OffchainConfig
@@ -609,7 +616,7 @@ func NewNode(t testing.TB, o NodeOpts) *Node {
 		oc = []byte(`{}`)
 	}
 	p, info, err := fac.NewReportingPlugin(context.Background(), ocr3types.ReportingPluginConfig{
-		ConfigDigest: n.Digest, OracleID: 0, N: o.N, F: o.F, OffchainConfig: oc,
+		ConfigDigest: n.Digest, OracleID: commontypes.OracleID(o.OracleID), N: o.N, F: o.F, OffchainConfig: oc,
 	})
 	if err != nil {
 		t.Fatalf("NewReportingPlugin: %v", err)
